@@ -74,6 +74,10 @@ pub struct SvgCfg {
     pub image_size: Option<f64>,
     pub image_gap: Option<f64>,
     pub image_position: Option<(f64, f64)>,
+    /// Renderer instance reuse: before the render under test the SAME builder instance, configured identically but
+    /// with margin `.0`, renders another symbol (of version `.1`, or the symbol under test itself when None); then
+    /// the margin is set to its final value. The output must be what a fresh builder would produce.
+    pub warm: Option<(usize, Option<usize>)>,
 }
 
 fn set_color<B: Builder>(b: &mut B, which: u8, c: &ColorSpec) {
@@ -134,6 +138,48 @@ impl SvgCfg {
         }
     }
 
+    /// the symbol rendered during the warm-up
+    fn warm_qr(v: Option<usize>) -> Option<fast_qr::QRCode> {
+        let v = v?;
+        fast_qr::QRBuilder::new("WARM-UP 123").version(crate::fq::f_version(v.clamp(1, 40))).ecl(fast_qr::ECL::L).build().ok()
+    }
+
+    /// SVG string from one SvgBuilder instance, after the optional warm-up render
+    pub fn svg_string(&self, q: &fast_qr::QRCode) -> String {
+        use fast_qr::convert::svg::SvgBuilder;
+        let mut b = SvgBuilder::default();
+        self.apply(&mut b);
+        if let Some((m0, v0)) = self.warm {
+            b.margin(m0);
+            match Self::warm_qr(v0) {
+                Some(q0) => {
+                    let _ = b.to_str(&q0);
+                }
+                None => {
+                    let _ = b.to_str(q);
+                }
+            }
+            b.margin(self.margin_eff());
+        }
+        b.to_str(q)
+    }
+
+    /// the same for the raster builder (the caller adds the fit request before and renders after)
+    pub fn warm_up_image_builder(&self, ib: &mut fast_qr::convert::image::ImageBuilder, q: &fast_qr::QRCode) {
+        if let Some((m0, v0)) = self.warm {
+            ib.margin(m0);
+            match Self::warm_qr(v0.map(|v| v.min(6))) {
+                Some(q0) => {
+                    let _ = ib.to_pixmap(&q0);
+                }
+                None => {
+                    let _ = ib.to_pixmap(q);
+                }
+            }
+            ib.margin(self.margin_eff());
+        }
+    }
+
     pub fn to_json(&self) -> Value {
         json!({
             "margin": self.margin,
@@ -146,6 +192,7 @@ impl SvgCfg {
             "image_size": self.image_size,
             "image_gap": self.image_gap,
             "image_position": self.image_position.map(|(x, y)| vec![x, y]),
+            "warm": self.warm.map(|(m, v)| json!([m, v])),
         })
     }
 
@@ -167,8 +214,19 @@ impl SvgCfg {
         c.image_size = v.get("image_size").and_then(|x| x.as_f64());
         c.image_gap = v.get("image_gap").and_then(|x| x.as_f64());
         c.image_position = v.get("image_position").and_then(|x| x.as_array()).and_then(|a| Some((a.get(0)?.as_f64()?, a.get(1)?.as_f64()?)));
+        c.warm = v.get("warm").and_then(|x| x.as_array()).and_then(|a| Some((a.first()?.as_u64()? as usize, a.get(1).and_then(|x| x.as_u64()).map(|x| x as usize))));
         Some(c)
     }
+}
+
+/// warm-up settings for renderer-instance reuse (absent in 3 of 5 cases)
+pub fn warm_strategy() -> BoxedStrategy<Option<(usize, Option<usize>)>> {
+    prop_oneof![
+        3 => Just(None),
+        1 => (0usize..=8).prop_map(|m| Some((m, None))),
+        1 => (0usize..=8, 1usize..=5).prop_map(|(m, v)| Some((m, Some(v)))),
+    ]
+    .boxed()
 }
 
 pub fn rgb_color() -> BoxedStrategy<ColorSpec> {
